@@ -20,6 +20,7 @@ use byteorder::ReadBytesExt;
 
 use super::constants::*;
 use super::error::*;
+use super::functions::is_jsonb;
 use super::jentry::JEntry;
 use super::number::Number;
 use super::parser::parse_value;
@@ -54,6 +55,11 @@ use super::value::Value;
 ///
 ///    Decode `JSONB` Value from binary bytes.
 pub fn from_slice(buf: &[u8]) -> Result<Value<'_>, Error> {
+    // JSON text never starts with a JSONB header byte other than a space,
+    // decode it as text directly instead of guessing from a failed binary decode.
+    if !is_jsonb(buf) {
+        return parse_value(buf);
+    }
     let mut decoder = Decoder::new(buf);
     match decoder.decode() {
         Ok(value) => Ok(value),
